@@ -3,7 +3,9 @@ import PfVerif.Props.C07
 import PfVerif.Lemmas.C07PDE
 import PfVerif.Lemmas.C07Barrier
 import PfVerif.Lemmas.C07Lookback
+import PfVerif.Lemmas.C07Acquire
 #audit_module PfVerif.Props.C07
 #audit_module_ns PfVerif.Lemmas.C07PDE PfVerif.C07PDE
 #audit_module_ns PfVerif.Lemmas.C07Barrier PfVerif.C07Barrier
 #audit_module_ns PfVerif.Lemmas.C07Lookback PfVerif.C07Lookback
+#audit_module_ns PfVerif.Lemmas.C07Acquire PfVerif.C07Acquire
